@@ -27,6 +27,18 @@ def ulps(a, b):
 
 PLAIN = (int, float, str, tuple, type(None), bool)
 
+
+def fhex(x):
+    """bit-exact rendering of a float for replays (None / non-floats as they are)"""
+    return x.hex() if isinstance(x, float) else x
+
+
+def same(got, want):
+    """echoed value is the value passed: equal, and for floats the same binary64 (0.1 + 0.2 is not 0.3, -0.0 not 0.0)"""
+    if isinstance(want, float):
+        return isinstance(got, float) and got == want and float(got).hex() == want.hex()
+    return got == want
+
 # ---- numeric kinds of the per-run vectors handed back through DecodeResult (documented type: numpy.array 1d) ----
 # Values are integers in units of 1/DEN, so float kinds carry dyadic values k/4 whose sums are exact.
 DEN = 4
@@ -133,7 +145,12 @@ def run(ctx):
                 '(max_runs,max_failures) in {None,1..5}^2 x all 2^6 success histories exhaustively, plus random '
                 'histories to length %d with lc/cv vectors (None, shape changes), weights, ideal and ftp mode; '
                 'per-run vectors whose numpy dtype varies from run to run (all ordered pairs of 12 kinds, random '
-                'kind sequences, shared array objects), totals decided exactly in units of 1/4. '
+                'kind sequences, shared array objects), totals decided exactly in units of 1/4; decoders that own '
+                '1-3 preallocated output buffers per field which they overwrite in place and return again (and one '
+                'reused DecodeResult object), in all sections and both modes; probabilities any binary64 in [0,1] '
+                '(random, thirds, float-noise sums, tiny, subnormal, next to 1, nextafter neighbours), given or '
+                'defaulted measurement probability, arbitrary label strings: echoed bit for bit and seen unchanged by '
+                'every generate / decode call. '
                 'nontrivial = history with >=1 failure and >=1 success consumed and some limit binding'
                 % ctx.pick(20, 40))
     ctx.props_obligations()
@@ -169,11 +186,19 @@ def run(ctx):
                 break
         return emr, emf, k, fails, want_err, lcs, cvs
 
-    def scenario(code, mode, T, mr, mf, hist, tag, p=0.25, q=None, kinds=None, share=False, zero_tail=False):
+    def scenario(code, mode, T, mr, mf, hist, tag, p=0.25, q=None, kinds=None, share=False, zero_tail=False,
+                 inplace=0, one_result=False, labels=('EM', 'DEC')):
         """hist: list of (success, lc, cv, w); followed by an endless tail of failing copies of the last shape.
         kinds = None: lc/cv are integer vectors handed over as int arrays. Otherwise kinds[i] = (lc kind, cv kind) of
         run i and lc/cv are integers in units of 1/DEN (floats kinds carry k/4); share = the decoder hands out the
-        same array object whenever kind and value repeat. Returns False if the history is outside the domain."""
+        same array object whenever kind and value repeat.
+        inplace = N > 0: the decoder owns N preallocated output buffers per (field, dtype, length), used in rotation:
+        at each decode call it overwrites the next one IN PLACE with this run's values and returns that same object
+        again (N = 1: one buffer per field, the object is the same from run to run while its contents change);
+        one_result: it also returns one and the same DecodeResult object, with its attributes reassigned.
+        The expected totals are the fold of the per-run VALUES as they were when they were returned.
+        p, q: the probabilities handed to run / run_ftp (any binary64 in [0, 1]); labels of error model and decoder.
+        Returns False if the history is outside the domain."""
         n = code.n_k_d[0]
         den = 1 if kinds is None else DEN
         z = (lambda v: None if v is None else [0] * len(v)) if zero_tail else (lambda v: v)
@@ -210,6 +235,38 @@ def run(ctx):
                            for (s, lc, cv, _), (lk, ck) in zip(full, fkinds)]
             except ValueError:
                 return False
+        if inplace:
+            # decoder-owned output buffers: the arrays prepared above are only the per-run SOURCE values; what the
+            # decoder hands out is its own buffer of that dtype and length, overwritten in place at every call
+            sources = [(a.success, a.logical_commutations, a.custom_values) for a in answers]
+            bufs, the_result = {}, []
+
+            def own(field, kind, src):
+                if src is None:
+                    return None
+                st = bufs.setdefault((field, kind, len(src)), [0, []])
+                j = st[0] % inplace
+                st[0] += 1
+                if j == len(st[1]):
+                    st[1].append(np.empty_like(src))
+                buf = st[1][j]
+                buf[...] = src          # in place: every earlier holder of this object now sees this run's values
+                return buf
+
+            def answer_at(i):
+                def answer():
+                    s_, lsrc, csrc = sources[i]
+                    lk, ck = (None, None) if fkinds is None else fkinds[i]
+                    lbuf, cbuf = own('lc', lk, lsrc), own('cv', ck, csrc)
+                    if not one_result:
+                        return DecodeResult(success=s_, logical_commutations=lbuf, custom_values=cbuf)
+                    if not the_result:
+                        the_result.append(DecodeResult(success=s_))
+                    r = the_result[0]
+                    r.success, r.logical_commutations, r.custom_values = s_, lbuf, cbuf
+                    return r
+                return answer
+            answers = [answer_at(i) for i in range(len(sources))]
         errs = []
         for (_, _, _, w) in full:
             # w spread over T step errors as single-qubit X errors (weights add over steps)
@@ -220,7 +277,7 @@ def run(ctx):
                 e[:kk] = 1
                 left -= kk
                 errs.append(e)
-        em, dec = ScriptedErrorModel(errs, label='EM'), ScriptedDecoder(answers, label='DEC')
+        em, dec = ScriptedErrorModel(errs, label=labels[0]), ScriptedDecoder(answers, label=labels[1])
         kw = {}
         if mr is not None:
             kw['max_runs'] = mr
@@ -241,6 +298,14 @@ def run(ctx):
         hs = ';'.join('%d:%s:%s:%d' % (1 if s else 0, ints(lc), ints(cv), w) for (s, lc, cv, w) in full)
         line = 'run %s %s %d %d %s' % ('_' if mr is None else mr, '_' if mf is None else mf, n, T, hs)
         rep = {'code': repr(code), 'mode': mode, 'T': T, 'max_runs': mr, 'max_failures': mf,
+               'error_probability': p, 'error_probability_hex': fhex(p),
+               'measurement_error_probability': q, 'measurement_error_probability_hex': fhex(q),
+               'labels': list(labels),
+               'decoder_arrays': (
+                   '%d preallocated buffer(s) per (field, dtype, length), overwritten in place at each decode call '
+                   'and returned again%s' % (inplace, '; one DecodeResult object reused for all calls'
+                                             if one_result else '') if inplace else
+                   'the same array object whenever kind and value repeat' if share else 'a fresh array per run'),
                'history': [(s, lc, cv, w) for (s, lc, cv, w) in hist], 'result': res if data is None else
                {k: (v if isinstance(v, PLAIN) else repr(v)) for k, v in data.items() if k != 'wall_time'}}
         if kinds is not None:
@@ -282,12 +347,22 @@ def run(ctx):
             pr = Fraction(tot, n * T * k)
             if ulps(float(data['physical_error_rate']), float(pr)) > 4:
                 ctx.violation('physical-rate', 'physical_error_rate != total/(n*T*n_run)', dict(rep, want=float(pr)))
+            # identification fields: EXACTLY what was passed (probabilities compared as binary64 values, bit for bit),
+            # with the documented default of measurement_error_probability; and every run was made with these values
             q_eff = 0.0 if mode == 'ideal' else ((0.0 if T == 1 else p) if q is None else q)
-            ident = {'code': code.label, 'n_k_d': code.n_k_d, 'time_steps': T, 'error_model': 'EM', 'decoder': 'DEC',
-                     'error_probability': p, 'measurement_error_probability': q_eff}
+            ident = {'code': code.label, 'n_k_d': code.n_k_d, 'time_steps': T, 'error_model': labels[0],
+                     'decoder': labels[1], 'error_probability': p, 'measurement_error_probability': q_eff}
             for key, val in ident.items():
-                if data[key] != val:
-                    ctx.violation('echo-' + key, 'identification field %s not echoed' % key, dict(rep, want=val))
+                if not same(data[key], val):
+                    ctx.violation('echo-' + key, 'identification field %s is not the value passed in' % key,
+                                  dict(rep, want=val, want_hex=fhex(val), got_hex=fhex(data[key])))
+            seen_p = [c[1] for c in em.calls] + [c['kwargs'].get('error_probability') for c in dec.calls]
+            seen_q = [c['kwargs'].get('measurement_error_probability') for c in dec.calls]
+            if not (all(same(x, p) for x in seen_p) and all(same(x, q_eff) for x in seen_q)):
+                ctx.violation('run-probability', 'a run was made with probabilities other than the ones passed in '
+                              '(and echoed in the aggregate)',
+                              dict(rep, seen_error_probability=sorted(set(map(fhex, seen_p))),
+                                   seen_measurement_error_probability=sorted(set(map(fhex, seen_q)))))
             # every value is a plain JSON-serialisable scalar or tuple
             bad = [key for key, v in data.items() if type(v) not in PLAIN
                    or (isinstance(v, tuple) and any(type(x) not in PLAIN for x in v))]
@@ -310,6 +385,41 @@ def run(ctx):
             (kern if tag == 'random' else kern_mixed).append((mr, mf, full, impl))
         return True
 
+    # ---- generic parameter values and decoder object-reuse patterns ----
+    SHORT_P = [0.0, 0.125, 0.25, 0.5, 1.0, 0.1, 0.05, 0.3]
+    AWKWARD_P = [1 / 3, 1 / 7, 0.1 + 0.2, 1 / 30, 1e-13, 1 - 1e-13, 2.5e-15, 3e-14, 0.06666666666666668, 2.0 ** -53,
+                 1 - 2.0 ** -53, 5e-324, 2.2250738585072014e-308, 0.1 * 3, 0.7 + 0.1, 1e-12, 0.5 + 1e-12]
+
+    def rand_prob():
+        """any binary64 in [0, 1]: short decimals, generic values (rng.random(), scaled down by powers of ten),
+        awkward constants (thirds, sums with float noise, tiny, next to 1, subnormal) and their nextafter neighbours"""
+        r = rng.random()
+        if r < 0.2:
+            return rng.choice(SHORT_P)
+        if r < 0.45:
+            return rng.random()
+        if r < 0.55:
+            return rng.random() * 10.0 ** -rng.randint(1, 20)
+        base = rng.choice(AWKWARD_P + SHORT_P[:5])
+        if r < 0.8:
+            return base
+        return min(1.0, max(0.0, math.nextafter(base, rng.choice([0.0, 1.0]))))
+
+    LABELS = ['EM', 'DEC', '', ' ', 'Error model (p=0.1) ', ' padded', '\u0394-d\u00e9codeur', 'two\nlines', 'x' * 200,
+              '0.1', 'None', 'a"b\\c', 'Depolarizing', 'Depolarizing ']
+
+    def rand_labels():
+        return ('EM', 'DEC') if rng.random() < 0.4 else (rng.choice(LABELS), rng.choice(LABELS))
+
+    def rand_arrays():
+        """how the decoder treats the arrays it returns: (share, inplace, one_result)"""
+        r = rng.random()
+        if r < 0.3:
+            return False, 0, False
+        if r < 0.5:
+            return True, 0, False
+        return False, rng.choice([1, 1, 1, 2, 3]), rng.random() < 0.3
+
     # ---- exhaustive small histories x all limit pairs ----
     L = 6
     lims = [None, 1, 2, 3, 4, 5]
@@ -319,6 +429,9 @@ def run(ctx):
             for bits in itertools.product([True, False], repeat=L if not ctx.quick or (mr in (None, 3, 5)) else 4):
                 hist = [(b, [1 if b else 0, i % 2], None, (i * 3 + (0 if b else 1)) % 6) for i, b in enumerate(bits)]
                 scenario(code, 'ideal', 1, mr, mf, hist, 'exhaustive')
+                # the same history from a decoder that owns one output buffer per field (contents change in place)
+                scenario(code, 'ideal', 1, mr, mf, hist, 'exhaustive-inplace', p=rand_prob(), inplace=1,
+                         one_result=bits[0])
     ctx.exhaustive = False
     # ---- random histories: vectors, None, shape changes, ftp ----
     for it in range(ctx.pick(600, 6000)):
@@ -346,8 +459,10 @@ def run(ctx):
             elif kind < 0.55 and i >= ln // 2:                  # shape change half way
                 lc = lc + [1]
             hist.append((s, lc, cv, rng.randint(0, n * T)))
-        scenario(code, mode, T, mr, mf, hist, 'random', p=rng.choice([0.0, 0.125, 0.5, 1.0]),
-                 q=rng.choice([None, 0.0, 0.25]) if mode == 'ftp' else None)
+        _, inplace, one_result = rand_arrays()
+        scenario(code, mode, T, mr, mf, hist, 'random', p=rand_prob(),
+                 q=(None if rng.random() < 0.4 else rand_prob()) if mode == 'ftp' else None,
+                 inplace=inplace, one_result=one_result, labels=rand_labels())
 
     # ---- per-run vectors of varying numeric kind (dtype / container) within one simulation ----
     # The aggregate is the element-wise sum whatever dtype each run's vector has. Expected totals: exact fold in
@@ -396,8 +511,12 @@ def run(ctx):
                     lcs_ = [[rand_val(k_, True)] for k_ in (ka, kb, kb)]
                     hist = [(True, lcs_[0], va, 1), (variant % 3 != 2, lcs_[1], vb[0], 2), (True, lcs_[2], vb[1], 0)]
                     kinds = [(ka, ka), (kb, kb), (kb, kb)] if variant < 4 else [('i64', ka), (kb, kb), ('i64', kb)]
-                    if scenario(five, 'ideal', 1, 3, None, hist, 'mixed', kinds=kinds, share=bool(variant & 2),
-                                zero_tail=True):
+                    # variants 0,1: fresh arrays; 2,3: shared objects; 4,5 (thorough): decoder-owned buffers; and in
+                    # a share of the quick variants the buffers too, so every ordered pair meets them in both tiers
+                    inplace = 1 if (variant >= 4 or rng.random() < 0.35) else 0
+                    if scenario(five, 'ideal', 1, 3, None, hist, 'mixed', kinds=kinds,
+                                share=bool(variant & 2) and not inplace, zero_tail=True, inplace=inplace,
+                                one_result=bool(inplace) and rng.random() < 0.3):
                         break
                     skipped += 1
     # (b) random histories, independent kind sequences for logical_commutations and custom_values
@@ -429,9 +548,11 @@ def run(ctx):
             elif odd < 0.22 and i >= ln // 2:                   # shape change half way, whatever the kinds
                 cv = cv + [0]
             hist.append((s_, lc, cv, rng.randint(0, n * T)))
-        if scenario(code, mode, T, mr, mf, hist, 'mixed', p=rng.choice([0.0, 0.125, 0.5]),
-                    q=rng.choice([None, 0.0, 0.25]) if mode == 'ftp' else None, kinds=list(zip(lks, cks)),
-                    share=rng.random() < 0.5, zero_tail=rng.random() < 0.7):
+        share, inplace, one_result = rand_arrays()
+        if scenario(code, mode, T, mr, mf, hist, 'mixed', p=rand_prob(),
+                    q=(None if rng.random() < 0.4 else rand_prob()) if mode == 'ftp' else None,
+                    kinds=list(zip(lks, cks)), share=share, zero_tail=rng.random() < 0.7, inplace=inplace,
+                    one_result=one_result, labels=rand_labels()):
             done += 1
         else:
             skipped += 1
@@ -445,6 +566,15 @@ def run(ctx):
         '(AttributeError: no .shape - the documented type of DecodeResult vectors is numpy.array 1d), 0-d arrays / '
         'numpy scalars (TypeError in tuple()), bool arrays (bool + bool stays bool in NumPy).'
         % (','.join(KINDS), skipped))
+
+    ctx.notes.append(
+        'decoder object-reuse patterns: fresh array per run; the same array object whenever kind and value repeat; '
+        '1-3 decoder-owned preallocated buffers per (field, dtype, length) overwritten in place at every decode call '
+        'and returned again, optionally through one reused DecodeResult object. Expected totals are always the fold '
+        'of the values as they were when returned (reference fold + engine on the value stream; c04_snapshot: the '
+        'loop over returned buffers equals the loop over the values written, for every reuse pattern). '
+        'Probabilities are arbitrary binary64 values in [0,1] and labels arbitrary strings; the aggregate must echo '
+        'them bit for bit (float.hex) and every generate / decode call must have received the same values (c04_echo).')
 
     out = ctx.model('c04', req)
     for (impl, stats, rep), m, line in zip(exp, out, req):
